@@ -61,7 +61,7 @@ Definition has_wrap (m : rmachine) : bool :=
   9 * (4 * rm_w m + 4 * rm_h m - 2) <=? 10 * wrap_working m.
 
 (* Links.to_vector; the lookup never fails on a member of Links (lemma link_vec_total) *)
-Definition link_vec (l : Z) : Z * Z :=
+Definition rlink_vec (l : Z) : Z * Z :=
   match links_to_vector l with Some v => v | None => (0, 0) end.
 
 (* ------------------------------------------------------------------------------------------------
@@ -169,7 +169,8 @@ Definition torus_vector (nb dest : chip) (w h : Z) (s : stream) : result vec3 * 
   let '(k2, s) := draw s in
   let '(k3, s) := draw s in
   match torus_path_request k0 k1 k2 k3 (to_xyz nb) (to_xyz dest) w h with
-  | None => (shortest_torus_path k0 k1 k2 k3 (fun _ _ => 0) (to_xyz nb) (to_xyz dest) w h, s)
+  | None => (* no randint call is made; the argument is never applied *)
+      (shortest_torus_path k0 k1 k2 k3 (scripted_randint 0) (to_xyz nb) (to_xyz dest) w h, s)
   | Some _ =>
       let '(k4, s) := draw s in
       (shortest_torus_path k0 k1 k2 k3 (scripted_randint k4) (to_xyz nb) (to_xyz dest) w h, s)
@@ -258,7 +259,7 @@ Fixpoint has_dead_links (m : rmachine) (t : rtree) : bool :=
 (* ------------------------------------------------------------------------------------------------
    links_between(a, b, machine) as the list of link numbers in Links order *)
 Definition links_between (a b : chip) (m : rmachine) : list Z :=
-  filter (fun l => let v := link_vec l in
+  filter (fun l => let v := rlink_vec l in
                    ((fst a + fst v) mod rm_w m =? fst b) && ((snd a + snd v) mod rm_h m =? snd b)
                    && link_alive m a l) links_members.
 
@@ -343,7 +344,7 @@ Definition visited_mem (c : chip) (v : visited_t) : bool := existsb (fun e => ch
 Definition expand (m : rmachine) (heur : chip -> Z) (node : chip) (st : visited_t * list (Z * chip))
   : visited_t * list (Z * chip) :=
   fold_left (fun (st : visited_t * list (Z * chip)) nl =>
-               let v := link_vec (links_opposite nl) in
+               let v := rlink_vec (links_opposite nl) in
                let nb := ((fst node + fst v) mod rm_w m, (snd node + snd v) mod rm_h m) in
                if negb (link_alive m nb nl) then st
                else if visited_mem nb (fst st) then st
